@@ -53,9 +53,9 @@ PLAN = {
     },
     'C06': {
         'engines': ['kani', 'verus_units', 'syntactic'],
-        'technique': 'Kani contracts on every ending path of the real StreamController (all registered upstream observers unsubscribed) + Verus contracts on early-stopping handlers and producer loops extracted from /repo',
+        'technique': 'Verus contracts on the StreamController methods extracted from /repo (every ending path, any number of registered upstreams, re-entrant downstream unsubscribe) + Kani contracts on the same paths of the real type (<=2 upstreams, real locks/map facade) + Verus contracts on early-stopping handlers and producer loops extracted from /repo',
         'level_text': 'each ending path (sink_error, last sink_complete, sink_complete_force, finalize, downstream unsubscribe, re-entrant unsubscribe) is proved to leave every registered upstream observer unsubscribed and the map empty; producer loops are proved to re-check is_subscribed before every emission',
-        'level_note': 'bounded in the number of registered upstream observers (<=2); interval/timer threads are C15/C16 (not applicable)',
+        'level_note': 'the Verus StreamController unit is unbounded in the number of upstreams over models of the lock-protected map and of the subscriber Observer (assumptions listed); the Kani obligations on the real type with the lock/map facade are bounded to <=2 registered upstreams; new_observer/new (closures) are covered by Kani only; interval/timer threads are C15/C16 (not applicable)',
         'design_ref': 'DESIGN.md 4.6',
     },
     'C10': {
@@ -82,10 +82,10 @@ PLAN = {
         'design_ref': 'DESIGN.md 4.14',
     },
     'C17': {
-        'engines': ['kani', 'verus_lemmas', 'syntactic'],
-        'technique': 'Kani post-state contracts "no closure retained" on every ending path of the real StreamController and Observer',
+        'engines': ['kani', 'verus_units', 'verus_lemmas', 'syntactic'],
+        'technique': 'Verus post-state contracts on the StreamController methods extracted from /repo (map empty, on_finalize taken, subscriber teardown taken after every ending path; any number of upstreams) + Kani post-state contracts "no closure retained" on every ending path of the real StreamController and Observer',
         'level_text': 'after each ending path the subscriber\'s four slots (including the teardown closure that owns the controller), the upstream map and on_finalize are proved empty: the only owning edges that can form a cycle are cut',
-        'level_note': 'bounded to <=2 upstreams; acyclicity of the remaining ownership edges is an argument in DESIGN 4.17, not mechanised',
+        'level_note': 'Kani part bounded to <=2 upstreams (the Verus unit is not, over its models); acyclicity of the remaining ownership edges is an argument in DESIGN 4.17, not mechanised',
         'design_ref': 'DESIGN.md 4.17',
     },
 }
